@@ -29,6 +29,22 @@ Fixpoint find_arch (archs : list darch) (id : N) : option nat :=
   | a :: r => if N.eqb (da_id a) id then Some 0 else S <$> find_arch r id
   end.
 
+(* ---------------------------------------------------------------- handle conversions (entity.rs) *)
+
+(** EntityAny::from_raw / raw; TryFrom<EntityAny> for Entity<A> (and from_any, which panics instead);
+    From<Entity<A>> for EntityAny; the Select* conversions. Handles are their raw pairs, so the
+    conversions that merely re-wrap a value are the identity; the extractor checks that the Rust
+    bodies have exactly that shape (`Self { inner: entity, .. }`, `entity.inner`). *)
+Definition from_raw (raw : N * N) : option handle := if raw_ok (snd raw) then Some raw else None.
+Definition raw_of (h : handle) : N * N := h.
+Definition into_any (h : handle) : handle := h.
+Definition try_from_any (id : N) (h : handle) : option handle := if conv_ok (fst h) id then Some h else None.
+Definition try_from_dany (id : N) (h : handle) : option handle := if dconv_ok (fst h) id then Some h else None.
+Definition handle_archetype_id (h : handle) : N := key_arch_id (fst h).
+Definition select_entity (archs : list darch) (h : handle) : option nat := find_arch archs (key_arch_id (fst h)).
+Definition select_direct (archs : list darch) (h : handle) : option nat := find_arch archs (dkey_arch_id (fst h)).
+Definition handle_hash_word (h : handle) : N := hash_word (fst h) (snd h).
+
 (* ---------------------------------------------------------------- world construction *)
 
 Fixpoint new_world (archs : list darch) (caps : list nat) : res world unit :=
